@@ -271,6 +271,16 @@ public:
             bpp::Range<T> ush(sh);
             ush -= cd.enc(k);
             e.kv("ush", pr(ush));
+            // shifts by the range's own end points (the argument may alias the object)
+            bpp::Range<T> sb(r);
+            sb -= sb.begin();
+            e.kv("sb", pr(sb));
+            bpp::Range<T> ab(r);
+            ab += ab.begin();
+            e.kv("ab", pr(ab));
+            bpp::Range<T> ae(r);
+            ae += ae.end();
+            e.kv("ae", pr(ae));
             e.kv("ov", r.overlap(q)).kv("ct", r.contains(q)).kv("cg", r.isContiguous(q));
             bpp::Range<T> ex(r);
             ex.expandWith(q);
